@@ -11,7 +11,7 @@ import (
 func init() {
 	register(&Check{
 		ID: "C02", Level: "exploration", QuickSecs: 150, ThoroughSecs: 1500,
-		Rule:        "skeletons over {'a',[ab],.,\"é\",&{},!{},#{}} x {?,*,+,&,!} x seq/choice up to N nodes (quick 4, thorough 5) wrapped in a rule-level action; left-recursive rules generated with -support-left-recursion (12 grammars: text, pos and the seed as label value in every growth iteration); every placement of <=2 labels on sub-expressions (distinct names, and the same name twice when the two bindings are in different scopes); a scope family (x bound in the rule sequence and again inside each scope-opening construct - & ! ? * + choice alternative, label, recovery - in a sub-sequence that continues after the inner binding; 243 grammars, inputs over {a,b} up to 4); every block receives the labels of its scope; every true/false script of the code predicates, each also with the predicates returning an error next to their boolean; inputs over {a,b,\\n,é} up to L=3; the complete ordered log of block invocations (id, kind, line:col:offset, text, label values), also on abandoned alternatives, and the parse result are compared with the reference interpreter; with Memoize (bodies up to 3 nodes in the quick tier) each observed invocation must be one the reference also makes; plus a family generated with -optimize-grammar in which a labelled leaf rule is inlined next to equally named labels. Non-trivial = at least two block invocations of which one on a later-abandoned path or after a backtrack.",
+		Rule:        "skeletons over {'a',[ab],.,\"é\",&{},!{},#{}} x {?,*,+,&,!} x seq/choice up to N nodes (quick 4, thorough 5) wrapped in a rule-level action; left-recursive rules generated with -support-left-recursion (12 grammars: text, pos and the seed as label value in every growth iteration); every placement of <=2 labels on sub-expressions (distinct names, and the same name twice when the two bindings are in different scopes); a scope family (x bound in the rule sequence and again inside each scope-opening construct - & ! ? * + choice alternative, label, recovery - in a sub-sequence that continues after the inner binding; 243 grammars, inputs over {a,b} up to 4); every block receives the labels of its scope; every true/false script of the code predicates, each also with the predicates returning an error next to their boolean; inputs over {a,b,\\n,é} up to L=3; the complete ordered log of block invocations (id, kind, line:col:offset, text, label values), also on abandoned alternatives, and the parse result are compared with the reference interpreter; with Memoize (bodies up to 3 nodes in the quick tier) each observed invocation must be one the reference also makes; plus a family generated with -optimize-grammar in which a labelled leaf rule is inlined next to equally named labels. Non-trivial = at least two block invocations of which one on a later-abandoned path or after a backtrack. Plus a line/column family (12 terminals spanning or following line ends - newline first / middle / last / only rune of a literal, CR LF, non-ASCII next to a newline, classes, any - in ordered pairs, two shapes, all 8 flag sets without left recursion, inputs over {a,newline,b} up to 4) and the cross family (cross.go, bodies <= 3 nodes x 16 flag sets, complete block log).",
 		Assumptions: []string{"E1 loader", "which labels a block receives is C04's concern; here the values bound to them are checked"},
 		Run:         runC02,
 	})
